@@ -85,7 +85,7 @@ def run_count(method, hessdiag=False):
                         ('Max(num_steps=2)', sg.MaxStepGenerator(num_steps=2))]:
             gen._state = sg._STATE(np.asarray(1), method, nn, mo)        # what Derivative._get_steps passes
             out[nm] = (gen.min_num_steps, gen.num_steps)
-        return dict(num_terms=num_terms, gens=out, n=nn)
+        return dict(num_terms=num_terms, gens=out, n=nn, mo=mo)
     pre = [z3.Int('n') >= 1, z3.Int('order') >= 1]
     if method == 'multicomplex':
         pre.append(z3.Int('n') <= 2)
@@ -104,6 +104,18 @@ def run_count(method, hessdiag=False):
             solve.prove('path%d:%s:min_num_steps>=rule-length' % (pi, nm), zi(mn) >= nt, p.hyps)
             solve.prove('path%d:%s:num_steps>=rule-length(apply-guard-passes)' % (pi, nm), zi(ns) >= nt, p.hyps)
             solve.prove('path%d:%s:num_steps>=1' % (pi, nm), zi(ns) >= 1, p.hyps)
+        # the documented count for ALL n, order: min_num_steps == max((n + order - 1) // divisor, 1) with divisor 2 for central /
+        # central2 / multicomplex, 4 or 2 for complex (4 when n > 1 or order >= 4), 1 for the one-sided methods
+        nn_, mo_ = zi(p.value['n']), zi(p.value['mo'])
+        if method in ('central', 'central2', 'multicomplex'):
+            dv = z3.IntVal(2)
+        elif method == 'complex':
+            dv = z3.If(z3.Or(nn_ > 1, mo_ >= 4), z3.IntVal(4), z3.IntVal(2))
+        else:
+            dv = z3.IntVal(1)
+        qd = (nn_ + mo_ - 1) / dv
+        solve.prove('path%d:Min:min_num_steps==max((n+order-1)//divisor,1)-with-the-documented-divisor' % pi,
+                    zi(p.value['gens']['Min'][0]) == z3.If(qd > 1, qd, z3.IntVal(1)), p.hyps)
         mn, ns = p.value['gens']['Min+extrap3']
         solve.prove('path%d:Min:num_steps==min+num_extrap' % pi, zi(ns) == zi(mn) + 3, p.hyps)
         mn, ns = p.value['gens']['Max']
